@@ -29,7 +29,7 @@ type rwSpyFlusher struct{ rwSpy }
 
 func (s *rwSpyFlusher) Flush() { s.log = append(s.log, "F") }
 
-var c13OpNames = []string{"WriteHeader(201)", "WriteHeader(404)", `Write("ab")`, `Write("")`, "Flush", "Before(h1)", "Before(h2:sets-header)", `Write("c")`}
+var c13OpNames = []string{"WriteHeader(201)", "WriteHeader(404)", `Write("ab")`, `Write("")`, "Flush", "Before(h1)", "Before(h2:sets-header)", `Write("c")`, "Before(h3:registers-another-hook-when-it-runs)"}
 
 // the boring model, written from the statement
 type rwModel struct {
@@ -121,11 +121,18 @@ func c13Exec(method string, flusher bool, ops []int) (key string, bad string) {
 	w := flamego.NewResponseWriter(method, under)
 	m := &rwModel{head: method == http.MethodHead, flusher: flusher}
 	var hookLog []string
-	mkHook := func(id int) flamego.BeforeFunc {
+	var mkHook func(id int) flamego.BeforeFunc
+	mkHook = func(id int) flamego.BeforeFunc {
 		return func(rw flamego.ResponseWriter) {
+			if id == 4 {
+				return // registered while the hooks were already running: whether it still runs is left open
+			}
 			hookLog = append(hookLog, fmt.Sprintf("h%d:status=%d:sent=%d", id, rw.Status(), len(spy.log)))
 			if id == 2 {
 				rw.Header().Set("X-Hook", "2")
+			}
+			if id == 3 {
+				rw.Before(mkHook(4)) // must not disturb the hooks registered before
 			}
 		}
 	}
@@ -161,6 +168,9 @@ func c13Exec(method string, flusher bool, ops []int) (key string, bad string) {
 		case 7:
 			gotN, _ = w.Write([]byte("c"))
 			wantN = m.write("c")
+		case 8:
+			w.Before(mkHook(3))
+			m.hooks = append(m.hooks, 3)
 		}
 		at := fmt.Sprintf("after step %d (%s)", step+1, c13OpName(op))
 		// a HEAD writer may report the bytes as accepted (as net/http does) or as 0: the statement only
@@ -230,10 +240,10 @@ func c13Run(r *core.Run) {
 	depth, treeDepth := 7, 0
 	r.SetBudget(60 * time.Second)
 	if r.Thorough() {
-		depth, treeDepth = 10, 8
+		depth, treeDepth = 9, 7
 		r.SetBudget(9 * time.Minute)
 	}
-	r.Rule = "engine B: BFS over histories of {WriteHeader(201),WriteHeader(404),Write(ab),Write(''),Flush,Before(h1),Before(h2),Write(c)} replayed on a fresh flamego.NewResponseWriter over a spy; state key = (status,size,pending hooks,what the spy received,hook observations); model+invariants compared after every transition; plus a status sweep (every status 100..999 in place of 201 in all short sequences, compared step by step); non-trivial = transition taken when a status had already been sent or a hook was pending (the cases where 'once' logic matters)"
+	r.Rule = "engine B: BFS over histories of {WriteHeader(201),WriteHeader(404),Write(ab),Write(''),Flush,Before(h1),Before(h2),Write(c),Before(h3 that registers a further hook when it runs)} replayed on a fresh flamego.NewResponseWriter over a spy; state key = (status,size,pending hooks,what the spy received,hook observations); model+invariants compared after every transition; plus a status sweep (every status 100..999 in place of 201 in all short sequences, compared step by step); non-trivial = transition taken when a status had already been sent or a hook was pending (the cases where 'once' logic matters)"
 	r.Bounds["bfs_depth"] = depth
 	r.Bounds["undeduplicated_tree_depth"] = treeDepth
 	r.Bounds["methods"] = []string{"GET", "HEAD", "POST"}
